@@ -1,6 +1,6 @@
 """C14 — ring configuration and negotiated features reach queues and backend unchanged."""
 from spec import wire
-from vlint.absint import const_eval
+from vlint.absint import const_eval, bitwise_pred_equals
 from vlint.facts import callee_of, resolved, AnchorMissing
 from vlint.gates import atom_gate, field_of, root_of
 from vlint.paths import Summariser, ret_okness
@@ -127,12 +127,18 @@ def run_on(fb, chk, tag=""):
         for w in ws:
             rv = m.sym.rvalue(w["rv"])
             subset = False
+            # some must-fact at the store is, as a predicate on bit vectors, exactly `features is a subset of
+            # backend.features()` (decided bit by bit: exact for And/Or/Xor/Not over the two values and constants)
+            def leaf_of(t):
+                if t[0] == "param" and t[2] == "features":
+                    return "F"
+                if t[0] == "call" and t[1] == "features" and "backend" in show(t):
+                    return "O"
+                return None
             for a in m.atoms_at(w["bb"]):
-                if a[0] == "cmp" and a[1] == "Eq" and const_eval(fb, m.sym, a[3]) == 0 and a[2][0] == "bin" and a[2][1] == "BitAnd":
-                    x, y = a[2][2], a[2][3]
-                    for p, q in ((x, y), (y, x)):
-                        if p[0] == "param" and p[2] == "features" and q[0] == "un" and q[1] == "Not" and "features(" in show(q[2]):
-                            subset = True
+                if a[0] == "cmp" and a[1] == "Eq":
+                    if bitwise_pred_equals(fb, m.sym, a, leaf_of, ("F", "O"), lambda e: not (e["F"] and not e["O"])) is True:
+                        subset = True
             okw = rv[0] == "param" and rv[2] == "features" and subset
         chk.check(okw and len(ws) == 1, "Q4", tag + "subset-and-store", "acked_features := features under features & !backend.features() == 0",
                   "acked features stored without the subset test against the offered features (or not the request value)", f.loc())
